@@ -20,7 +20,7 @@ type nodeTracer struct {
 }
 
 func (n *nodeTracer) Trace(evt *pb.TraceEvent) {
-	id, x := n.r.id(), n.r.ev()
+	id, x := n.r.id("trace"), n.r.ev()
 	b, err := evt.Marshal()
 	if err != nil {
 		panic(err)
@@ -60,7 +60,7 @@ func nodeScenario(t *testing.T, out *vh.Out, wd *watchdog, kind string) {
 	out.Emit(M{"e": "reset", "kind": kind, "ctor": "verif", "lossy": false, "bound": fileBound, "shape": "node"})
 	g := newGateW(out, kind)
 	g.dec.tsOnly = true
-	r := &run{out: out, open: map[int]bool{}}
+	r := &run{out: out, open: map[int]string{}}
 	if kind == "json" {
 		r.tr = pubsub.VerifNewJSONTracerW(g, false)
 	} else {
